@@ -1,6 +1,7 @@
 import ComposeVerif.Lemmas.C11Top
 import ComposeVerif.Lemmas.C11Shape
 import ComposeVerif.Lemmas.C11Walk
+import ComposeVerif.Lemmas.C11Perm
 import ComposeVerif.Lemmas.PathsClean
 import ComposeVerif.Neg.C11
 import ComposeVerif.Lemmas.AuditCmd
@@ -515,6 +516,110 @@ example : normalize id [] [("name", .str "p"), ("services", .map [("a", .map [("
          ("services", .map [("a", .map [("links", .seq [.str "b"]), ("networks", defaultNet), ("depends_on", .map [("b", depEntry true)])]),
                             ("b", .map [("networks", defaultNet)])]),
          ("networks", .map [("default", .map [("name", .str "p_default")])])] := by rfl
+
+/-! ## 6. Go's map iteration order: permuted input, permuted output (values identical) -/
+
+/-- the order of a service's attributes does not matter to the loop body -/
+theorem normService_order_irrelevant (clean : String → String) (env : Env) (s s' : KVs) (hn : KeysNodup s)
+    (hp : s'.Perm s) : (normService clean env s').Perm (normService clean env s) :=
+  normService_perm clean env hn hp
+
+theorem nnService_order_irrelevant (s s' : KVs) (hn : KeysNodup s) (hp : s'.Perm s) :
+    (nnService s').Perm (nnService s) := nnService_perm hn hp
+
+/-- the order in which Go ranges over `services` does not matter: same decision about the `default` network,
+and the normalised services are the same entries in the permuted order -/
+theorem services_order_irrelevant (clean : String → String) (env : Env) (svcs svcs' : KVs) (hp : svcs'.Perm svcs) :
+    (svcs'.any fun kv => svcJoinsDefault kv.2) = (svcs.any fun kv => svcJoinsDefault kv.2) ∧
+    (mapVals (normServiceV clean env) (mapVals nnServiceV svcs')).Perm
+      (mapVals (normServiceV clean env) (mapVals nnServiceV svcs)) ∧
+    (svcs'.all fun kv => shapeService kv.2) = (svcs.all fun kv => shapeService kv.2) :=
+  ⟨any_perm _ hp, mapVals_perm _ (mapVals_perm _ hp), all_perm _ hp⟩
+
+/-- the order in which `setNameFromKey` ranges over a resource section does not matter -/
+theorem resources_order_irrelevant (pj : Option Val) (top top' : KVs) (hp : top'.Perm top) :
+    (mapAt (nameResource pj) top').Perm (mapAt (nameResource pj) top) := mapAt_perm _ hp
+
+/-- **`Normalize` does not depend on the order of the top-level entries**: same panic, or results that are
+permutations of one another with identical values -/
+theorem normalize_order_irrelevant (clean : String → String) (env : Env) (d d' : KVs) (hn : KeysNodup d)
+    (hp : d'.Perm d) :
+    (∀ e, normalize clean env d = .ok e → ∃ e', normalize clean env d' = .ok e' ∧ e'.Perm e) ∧
+    (∀ site, normalize clean env d = .panic site → normalize clean env d' = .panic site) := by
+  obtain ⟨h1, h2, h3⟩ := shapes_perm hn hp
+  unfold normalize
+  rw [h1, h2, h3]
+  constructor
+  · intro e he
+    cases a : shapeNN d <;> cases b : shapeServices d <;> cases c : shapeNames d <;> simp [a, b, c] at he ⊢
+    subst he
+    exact normalizePure_perm clean env hn hp
+  · intro site hs
+    cases a : shapeNN d <;> cases b : shapeServices d <;> cases c : shapeNames d <;> simp [a, b, c] at hs ⊢ <;> exact hs
+
+example : KeysNodup [("name", .str "p"), ("services", .map [])] := by unfold KeysNodup; decide
+
+/-! ## 7. more of `Canonical`: the two transformers with a defaulting half are idempotent -/
+
+theorem transformEnvFile_idem (v v' : Val) (h : transformEnvFile v = .ok v') : transformEnvFile v' = .ok v' := by
+  cases v with
+  | str s => simp only [transformEnvFile, Out.ok.injEq] at h; subst h; rfl
+  | seq xs =>
+    simp only [transformEnvFile, Out.ok.injEq] at h
+    subst h
+    simp [transformEnvFile, List.map_map, Function.comp_def, env_file_value_idem]
+  | _ => simp [transformEnvFile] at h
+
+theorem transformDependsOn_idem (v v' : Val) (h : transformDependsOn v = .ok v') : transformDependsOn v' = .ok v' := by
+  cases v with
+  | map kvs =>
+    simp only [transformDependsOn] at h
+    split at h
+    · rename_i hall
+      simp only [Out.ok.injEq] at h
+      subst h
+      have hall' : ((kvs.map fun kv => (kv.1, depDefaultsV kv.2)).all fun kv => isMap kv.2) = true := by
+        simp only [List.all_map, List.all_eq_true, Function.comp] at hall ⊢
+        intro kv hkv
+        have := hall kv hkv
+        cases hv : kv.2 <;> simp [hv, isMap, depDefaultsV] at this ⊢
+      simp only [transformDependsOn, hall', if_true, List.map_map, Out.ok.injEq, Val.map.injEq]
+      apply List.map_congr_left
+      intro kv _
+      cases hv : kv.2 <;> simp [Function.comp, hv, depDefaultsV, depends_on_defaults_idem]
+    · cases h
+  | seq xs =>
+    simp only [transformDependsOn] at h
+    split at h
+    · simp only [Out.ok.injEq] at h
+      subst h
+      -- every entry of the result is the (complete) short-form entry
+      have inv : ∀ (l : List Val) (acc : KVs), (∀ e ∈ acc, e.2 = shortDep) →
+          ∀ e ∈ l.foldl (fun acc x => Val.insert (strOf x) shortDep acc) acc, e.2 = shortDep := by
+        intro l
+        induction l with
+        | nil => intro acc h; exact h
+        | cons x r ih =>
+          intro acc hacc
+          apply ih
+          intro e he
+          rcases mem_insert he with h1 | h1
+          · rw [h1]
+          · exact hacc e h1
+      have hres := inv xs [] (by simp)
+      generalize xs.foldl (fun acc x => Val.insert (strOf x) shortDep acc) [] = res at hres
+      have hall : (res.all fun kv => isMap kv.2) = true := by
+        simp only [List.all_eq_true]
+        intro kv hkv
+        rw [hres kv hkv]; rfl
+      simp only [transformDependsOn, hall, if_true, Out.ok.injEq, Val.map.injEq]
+      conv => rhs; rw [← List.map_id res]
+      apply List.map_congr_left
+      intro kv hkv
+      have : depDefaultsV kv.2 = kv.2 := by rw [hres kv hkv]; rfl
+      simp [this]
+    · cases h
+  | _ => simp [transformDependsOn] at h
 
 /-- the model of Go's `path.Clean` used by the driver is idempotent (C12's `clean_idem`) -/
 theorem pathClean_idempotent (s : String) : pathClean (pathClean s) = pathClean s := by
